@@ -1,0 +1,30 @@
+//go:build verif
+
+package sugardb
+
+// Machine-checked contracts for the gowp verifier (/verif). Comment-only; compiled only under the
+// build tag "verif"; declares nothing.
+//
+// Reference state: server.store[d][k] is the entry (Value, ExpireAt) of key k in logical database d.
+// $now is the ghost value of the injected clock (server.clock.Now()).
+
+//@ spec expired(e internal.KeyData, now Time) bool = e.ExpireAt != zerotime && e.ExpireAt < now
+//@ spec livekey(server *SugarDB, d int, k string, now Time) bool = has(server.store[d], k) && !expired(server.store[d][k], now)
+
+// ---- readers -----------------------------------------------------------------------------------
+
+//@ func (*SugarDB).keysExist props C04,C20,C13
+//@   requires hasdb(ctx)
+//@   ensures isfresh: fresh(result)
+//@   ensures domain: forall k string :: has(result, k) <==> (exists i int :: 0 <= i && i < len(keys) && keys[i] == k)
+//@   ensures {C04} visible: forall k string :: has(result, k) ==> (result[k] == livekey(server, dbof(ctx), k, $now))
+//@   modifies nothing
+//@   loop 0
+//@     invariant -1 <= rangeindex && rangeindex < len(keys) && fresh(exists)
+//@     invariant forall k string :: has(exists, k) <==> (exists i int :: 0 <= i && i <= rangeindex && keys[i] == k)
+//@     invariant forall k string :: has(exists, k) ==> (exists[k] == livekey(server, database, k, $now))
+
+//@ func (*SugarDB).getExpiry props C04,C20,C13
+//@   requires hasdb(ctx)
+//@   ensures {C04} deadline: result == (livekey(server, dbof(ctx), key, $now) ? server.store[dbof(ctx)][key].ExpireAt : zerotime)
+//@   modifies nothing
